@@ -5,7 +5,10 @@
 EXTENDS Naturals, Sequences, TLC, Json
 Configs == {"h1-connect", "h1h2c-all", "tls-mix", "tls-certs"}
 Slices  == {"basic", "basic-unary", "errors-skip-stream", "two-suites"}
-Scenarios == [config : Configs, slice : Slices, maxServers : 1..4, par : {1, 4, 16}, serverFail : BOOLEAN]
+\* how the server under test behaves: answers and stops at once / takes a while to end after SIGTERM /
+\* exits before answering / answers with garbage and takes a while to end
+SrvFaults == {"none:0", "none:350", "failstart:1", "garbage:350"}
+Scenarios == [config : Configs, slice : Slices, maxServers : 1..4, par : {1, 4, 16}, srvFault : SrvFaults]
 VARIABLE s
 Init == s \in Scenarios
 Next == FALSE /\ s' = s
